@@ -126,7 +126,7 @@ End WF.
 
 (* ================= induction principle for compile ================= *)
 Section Ind.
-  Variables (g : list node) (inv : N) (mc fixed : bool).
+  Variables (g : list node) (inv : N) (mc : bool) (fixed : config).
   Variable Pre : nat -> part -> cstate -> Prop.
   Variable Post : nat -> part -> cstate -> cstate -> list nat -> Prop.
 
